@@ -330,7 +330,7 @@ def moveName (s1 : FS) (c : Choice) (fd fidx td fino : Nat) (tname : Bytes) : Op
 
 /-- `NFSPROC3_RENAME` -/
 def doRename (s : FS) (c : Choice) (ffh fname tfh tname : Bytes) : FS × Reply :=
-  if illegalName fname then (s, .fail .err) else
+  if illegalName fname ∨ illegalName tname then (s, .fail .err) else
   match renameDirs s ffh tfh with
   | none => (s, .fail .stale)
   | some (fd, td) =>
